@@ -1227,3 +1227,303 @@ pub fn reach(seeds: &[Pos], depth: u32, max_states: usize) -> (Vec<(Pos, u32)>, 
     }
     (all, capped)
 }
+
+/// LONG: deterministic deep lines. From a seed, at ply i the side to move plays the
+/// ((a*i + b) mod n)-th of its n legal moves in model order; the line stops after `max` plies or
+/// when there is no legal move. Branching 1: these are single deep executions (hundreds of plies),
+/// not an exhaustive exploration at that depth; they complement the breadth-first universes, whose
+/// depth is small, with long histories (large clocks, long undo stacks, many recorded positions).
+pub const LONG_RULES: [(usize, usize); 6] = [(0, 0), (7, 3), (13, 5), (1, 0), (5, 11), (31, 17)];
+
+pub fn long_line(start: &Pos, a: usize, b: usize, max: usize) -> Vec<Mv> {
+    let mut v = Vec::new();
+    let mut p = *start;
+    for i in 0..max {
+        let l = p.legal();
+        if l.is_empty() {
+            break;
+        }
+        let m = l[(a * i + b) % l.len()];
+        v.push(m);
+        p = p.apply(m);
+    }
+    v
+}
+
+/// (seed index, a, b) of all LONG lines of a tier
+pub fn long_params(thorough: bool) -> Vec<(usize, usize, usize)> {
+    let rules = if thorough { &LONG_RULES[..] } else { &LONG_RULES[..3] };
+    let mut v = Vec::new();
+    for s in 0..seeds().len() {
+        for &(a, b) in rules {
+            v.push((s, a, b));
+        }
+    }
+    v
+}
+
+pub fn long_max(thorough: bool) -> usize {
+    if thorough {
+        1000
+    } else {
+        300
+    }
+}
+
+// ---------------------------------------------------------------------------------------------
+// KING ZONE families with six men: MULTICHECK, CHECKPIN; CASTLE2 / PAWNROW
+
+/// (square, kind) of every enemy man that attacks `k` on an otherwise empty board, taken from:
+/// knights on the knight squares, pawns on the two pawn squares, rooks on the orthogonal and
+/// bishops on the diagonal rays at distance 1..=maxd, queens on all rays at distance 2
+pub fn attack_options(k: usize, own: u8, maxd: i32) -> Vec<(usize, u8)> {
+    let (kf, kr) = (file_of(k), rank_of(k));
+    let on = |f: i32, r: i32| (0..8).contains(&f) && (0..8).contains(&r);
+    let mut v = Vec::new();
+    for (df, dr) in [(1, 2), (2, 1), (2, -1), (1, -2), (-1, -2), (-2, -1), (-2, 1), (-1, 2)] {
+        if on(kf + df, kr + dr) {
+            v.push((sq(kf + df, kr + dr), N));
+        }
+    }
+    // an enemy pawn attacks towards the own side's home rank
+    let pr = if own == 0 { kr + 1 } else { kr - 1 };
+    for df in [-1, 1] {
+        if on(kf + df, pr) && pr != 0 && pr != 7 {
+            v.push((sq(kf + df, pr), P));
+        }
+    }
+    for (df, dr) in [(1, 0), (-1, 0), (0, 1), (0, -1), (1, 1), (1, -1), (-1, 1), (-1, -1)] {
+        for d in 1..=maxd {
+            let (f, r) = (kf + df * d, kr + dr * d);
+            if !on(f, r) {
+                break;
+            }
+            v.push((sq(f, r), if df == 0 || dr == 0 { R } else { B }));
+            if d == 2 {
+                v.push((sq(f, r), Q));
+            }
+        }
+    }
+    v
+}
+
+/// enemy-king squares far from `k` (Chebyshev distance >= 4), in a fixed order
+fn far_kings(k: usize, n: usize) -> Vec<usize> {
+    let mut v = Vec::new();
+    for &c in &[63usize, 0, 7, 56, 60, 4, 31, 32] {
+        let d = (file_of(c) - file_of(k)).abs().max((rank_of(c) - rank_of(k)).abs());
+        if d >= 4 && v.len() < n {
+            v.push(c);
+        }
+    }
+    v
+}
+
+/// shard = own king square * 2 + side to move
+pub const KZONE_SHARDS: usize = 128;
+/// each KZONE shard is split into this many parts
+pub const KZONE_PARTS: usize = 16;
+
+/// MULTICHECK: the king of the side to move attacked by THREE enemy men at once (every triple of
+/// `attack_options`; such positions cannot arise in play but are valid), alone or with one own
+/// defender of each given kind on every square; enemy king on `neks` far squares.
+pub fn multicheck(shard: usize, part: usize, maxd: i32, defenders: &[u8], neks: usize, f: Sink) {
+    let ok = shard / 2;
+    let own = (shard % 2) as u8;
+    let opp = 1 - own;
+    let opts = attack_options(ok, own, maxd);
+    let eks = far_kings(ok, neks);
+    // part = index of the first attacker option (KZONE_PARTS parts cover every index)
+    for i in 0..opts.len() {
+        if i % KZONE_PARTS != part {
+            continue;
+        }
+        for j in (i + 1)..opts.len() {
+            if opts[j].0 == opts[i].0 {
+                continue;
+            }
+            for k in (j + 1)..opts.len() {
+                if opts[k].0 == opts[i].0 || opts[k].0 == opts[j].0 {
+                    continue;
+                }
+                let mut p = Pos::empty();
+                p.stm = own;
+                p.b[ok] = mk(own, K);
+                for &(s, kd) in &[opts[i], opts[j], opts[k]] {
+                    p.b[s] = mk(opp, kd);
+                }
+                for &ek in &eks {
+                    if p.b[ek] != EMPTY {
+                        continue;
+                    }
+                    let mut q = p;
+                    q.b[ek] = mk(opp, K);
+                    if !is_valid_normal(&q) {
+                        continue;
+                    }
+                    f(&q);
+                    for &d in defenders {
+                        for x in 0..64 {
+                            if q.b[x] != EMPTY || (d == P && (rank_of(x) == 0 || rank_of(x) == 7)) {
+                                continue;
+                            }
+                            let mut r = q;
+                            r.b[x] = mk(own, d);
+                            emit_if_valid(&r, f);
+                        }
+                    }
+                }
+            }
+        }
+    }
+}
+
+/// CHECKPIN: the king of the side to move is attacked by one enemy man X (every attack option at
+/// distance <= 2), a second enemy slider Y stands on a king ray at distance 2..=3 with an own man
+/// B between it and the king (pinned, or shielding), and a free own man A of B's kind (a knight
+/// when B is a pawn) stands on every square: check evasions next to a pinned look-alike.
+pub fn checkpin(shard: usize, part: usize, neks: usize, f: Sink) {
+    let ok = shard / 2;
+    let own = (shard % 2) as u8;
+    let opp = 1 - own;
+    let (kf, kr) = (file_of(ok), rank_of(ok));
+    let on = |f: i32, r: i32| (0..8).contains(&f) && (0..8).contains(&r);
+    let xs = attack_options(ok, own, 2);
+    let eks = far_kings(ok, neks);
+    for (df, dr) in [(1, 0), (-1, 0), (0, 1), (0, -1), (1, 1), (1, -1), (-1, 1), (-1, -1)] {
+        for dy in 2..=3 {
+            if !on(kf + df * dy, kr + dr * dy) {
+                continue;
+            }
+            let ysq = sq(kf + df * dy, kr + dr * dy);
+            for &yk in &[if df == 0 || dr == 0 { R } else { B }, Q] {
+                for bd in 1..dy {
+                    let bsq = sq(kf + df * bd, kr + dr * bd);
+                    for &bk in &[N, B, R, Q, P] {
+                        if bk == P && (rank_of(bsq) == 0 || rank_of(bsq) == 7) {
+                            continue;
+                        }
+                        for (xi, &(xsq, xk)) in xs.iter().enumerate() {
+                            if xsq == ysq || xsq == bsq || xi % KZONE_PARTS != part {
+                                continue;
+                            }
+                            let mut p = Pos::empty();
+                            p.stm = own;
+                            p.b[ok] = mk(own, K);
+                            p.b[ysq] = mk(opp, yk);
+                            p.b[bsq] = mk(own, bk);
+                            p.b[xsq] = mk(opp, xk);
+                            for &ek in &eks {
+                                if p.b[ek] != EMPTY {
+                                    continue;
+                                }
+                                let mut q = p;
+                                q.b[ek] = mk(opp, K);
+                                if !is_valid_normal(&q) {
+                                    continue;
+                                }
+                                f(&q);
+                                let ak = if bk == P { N } else { bk };
+                                for a in 0..64 {
+                                    if q.b[a] != EMPTY {
+                                        continue;
+                                    }
+                                    let mut r = q;
+                                    r.b[a] = mk(own, ak);
+                                    emit_if_valid(&r, f);
+                                }
+                            }
+                        }
+                    }
+                }
+            }
+        }
+    }
+}
+
+/// shard = index of the first enemy man option (mod 64) * 2 + side
+pub const CASTLE2_SHARDS: usize = 128;
+
+/// CASTLE2: king and rook(s) at home with every subset of rights, and every PAIR of enemy men
+/// (P, N, B, R, Q) on the three ranks nearest the home rank: the squares the king leaves, crosses
+/// and reaches attacked once, twice, or by two men of one kind from both sides.
+pub fn castle2(shard: usize, f: Sink) {
+    let own = (shard % 2) as u8;
+    let part = shard / 2;
+    let opp = 1 - own;
+    let hr = if own == 0 { 0 } else { 7 };
+    let far = 7 - hr;
+    let near = |s: usize| (rank_of(s) - hr).abs() <= 2;
+    let mut opts: Vec<(usize, u8)> = Vec::new();
+    for s in 0..64 {
+        if !near(s) {
+            continue;
+        }
+        for &kd in &[P, N, B, R, Q] {
+            if kd == P && rank_of(s) == hr {
+                continue;
+            }
+            opts.push((s, kd));
+        }
+    }
+    for rooks in 1..4u8 {
+        let mut base = Pos::empty();
+        base.stm = own;
+        base.b[sq(4, hr)] = mk(own, K);
+        if rooks & 1 != 0 {
+            base.b[sq(0, hr)] = mk(own, R);
+        }
+        if rooks & 2 != 0 {
+            base.b[sq(7, hr)] = mk(own, R);
+        }
+        for &ek in &[sq(6, far), sq(1, far)] {
+            let mut p = base;
+            p.b[ek] = mk(opp, K);
+            for i in 0..opts.len() {
+                if i % 64 != part || p.b[opts[i].0] != EMPTY {
+                    continue;
+                }
+                for j in (i + 1)..opts.len() {
+                    if opts[j].0 == opts[i].0 || p.b[opts[j].0] != EMPTY {
+                        continue;
+                    }
+                    let mut q = p;
+                    q.b[opts[i].0] = mk(opp, opts[i].1);
+                    q.b[opts[j].0] = mk(opp, opts[j].1);
+                    expand_variants(&q, f);
+                }
+            }
+        }
+    }
+}
+
+/// PAWNROW: king and rook(s) at home with every subset of rights, and every subset of enemy
+/// pawns on the rank in front of the home rank (256 subsets, up to eight pawns)
+pub fn pawnrow(own: u8, f: Sink) {
+    let opp = 1 - own;
+    let hr = if own == 0 { 0 } else { 7 };
+    let pr = if own == 0 { 1 } else { 6 };
+    let far = 7 - hr;
+    for rooks in 1..4u8 {
+        for &ek in &[sq(6, far), sq(1, far)] {
+            for mask in 0..256u32 {
+                let mut p = Pos::empty();
+                p.stm = own;
+                p.b[sq(4, hr)] = mk(own, K);
+                if rooks & 1 != 0 {
+                    p.b[sq(0, hr)] = mk(own, R);
+                }
+                if rooks & 2 != 0 {
+                    p.b[sq(7, hr)] = mk(own, R);
+                }
+                p.b[ek] = mk(opp, K);
+                for fl in 0..8 {
+                    if mask >> fl & 1 != 0 {
+                        p.b[sq(fl, pr)] = mk(opp, P);
+                    }
+                }
+                expand_variants(&p, f);
+            }
+        }
+    }
+}
